@@ -629,3 +629,8 @@ mod test {
         .is_none());
     }
 }
+
+// Verification hook (compiled only by `cargo kani`, which sets `--cfg kani`).
+#[cfg(kani)]
+#[path = "/verif/harness/taiko_perf.rs"]
+pub(crate) mod verif_harness;
